@@ -56,7 +56,8 @@ def run(r):
             rc, o, err = C.run_py(c12.ORACLE_PYC, host=C.ORACLES[v], impl=False, stdin=json.dumps({"outdir": d, "stdlib": rnd.sample(c12.LIBS, 1 if quick else 6), "max_src": 15000}))
             fs = json.loads(o.split("@@JSON@@")[1]) if "@@JSON@@" in o else []
             fs = [f for f in fs if os.path.getsize(f) < 9000]
-            pycs += [(v, f) for f in (rnd.sample(fs, min(6, len(fs))) if quick else fs)]
+            # every generated source of that compiler (small, chosen to hit version-specific encodings), plus sampled stdlib modules
+            pycs += [(v, f) for f in fs if os.path.basename(f).startswith("src_") or not quick or rnd.random() < 0.5]
         files = [("corpus", f) for f in corpus] + pycs
         cases_default = [{"file": f, "path": "default", "max_codes": 10} for _, f in files]
 
